@@ -41,6 +41,24 @@ pub fn raw_push(bits: &[bool], rng: &mut Rng) -> RawVector {
     raw
 }
 
+// Pushes the bits, interleaved with extra set bits that are popped again (the final content is `bits`).
+pub fn raw_push_pop(bits: &[bool], rng: &mut Rng) -> RawVector {
+    use simple_sds::raw_vector::PopRaw;
+    let mut raw = RawVector::new();
+    let mut i = 0;
+    loop {
+        if rng.chance(1, 4) || i == bits.len() {
+            let k = 1 + rng.below(70);
+            for _ in 0..k { raw.push_bit(true); }
+            for _ in 0..k { let _ = raw.pop_bit(); }
+        }
+        if i == bits.len() { break; }
+        raw.push_bit(bits[i]);
+        i += 1;
+    }
+    raw
+}
+
 pub fn bv_set_bit(bits: &[bool]) -> BitVector { BitVector::from(raw_set_bit(bits)) }
 pub fn bv_push(bits: &[bool], rng: &mut Rng) -> BitVector { BitVector::from(raw_push(bits, rng)) }
 pub fn bv_iter(bits: &[bool]) -> BitVector { bits.iter().copied().collect() }
